@@ -119,6 +119,7 @@ pub fn check_pair(ctx: &mut Ctx, a: &Tree, b: &Tree) {
         _ => return,
     };
     ctx.count("pairs");
+    ctx.evals += 1;
     let key_order = ka.cmp(&kb);
     let expect = refops::compare(a, b);
     // the library's own compare (C14 is stated relative to it; C04 ties it to the documented order)
